@@ -5,52 +5,38 @@ import (
 	"testing"
 
 	"gonum.org/v1/gonum/mat"
-	"gonum.org/v1/gonum/stat"
+	"gonum.org/v1/gonum/stat/combin"
 	"gonum.org/v1/gonum/stat/spatial"
 	"verifharness/vk"
 )
 
 func TestProbe(t *testing.T) {
-	fmt.Println("kendall", stat.Kendall([]float64{1, 1}, []float64{1, 2}, nil), stat.Kendall([]float64{1, 1}, []float64{2, 1}, nil))
-	fmt.Println("kendall3", stat.Kendall([]float64{1, 2, 3}, []float64{5, 5, 5}, nil), stat.Kendall([]float64{3, 2, 1}, []float64{5, 5, 5}, nil))
-	for _, c := range []float64{0.1, 0.3, 1.1, 1e-3, 0.7} {
-		for n := 2; n < 12; n++ {
-			x := make([]float64, n)
-			for i := range x {
-				x[i] = c
-			}
-			v := stat.Variance(x, nil)
-			if v != 0 {
-				fmt.Println("var const", c, n, v, stat.StdDev(x, nil), stat.Mean(x, nil))
-			}
-		}
-	}
-	r := vk.Call(func() { stat.Histogram(nil, nil, []float64{1}, nil) })
-	fmt.Println("hist", r.Outcome, r.Text)
-	// Moran asymmetric band
-	n := 5
-	b := mat.NewBandDense(n, n, 0, 1, nil)
+	n := 7
+	r := vk.NewSplitMix(5)
 	d := mat.NewDense(n, n, nil)
 	for i := 0; i < n; i++ {
-		if i+1 < n {
-			b.SetBand(i, i+1, float64(i+1))
-			d.Set(i, i+1, float64(i+1))
+		for j := 0; j < n; j++ {
+			if i != j && r.Intn(2) == 0 {
+				v := float64(1 + r.Intn(3))
+				d.Set(i, j, v)
+				d.Set(j, i, v)
+			}
 		}
 	}
-	data := []float64{1, 3, 2, 7, 5}
-	fmt.Println(spatial.GlobalMoransI(data, nil, b))
-	fmt.Println(spatial.GlobalMoransI(data, nil, d))
-	// CC with xd<yd
-	x := mat.NewDense(8, 1, []float64{1, 2, 3, 4, 5, 6, 7, 9})
-	y := mat.NewDense(8, 2, []float64{1, 2, 3, 1, 5, 6, 1, 2, 4, 3, 4, 3, 4, 5, 6, 7})
-	var cc stat.CC
-	fmt.Println(cc.CanonicalCorrelations(x, y, nil))
-	r = vk.Call(func() { fmt.Println(cc.CorrsTo(nil)) })
-	fmt.Println(r.Outcome, r.Text)
-	r = vk.Call(func() { fmt.Println(cc.CorrsTo(make([]float64, 2))) })
-	fmt.Println(r.Outcome, r.Text)
-	r = vk.Call(func() { var l mat.Dense; cc.LeftTo(&l, true); fmt.Println(mat.Formatted(&l)) })
-	fmt.Println(r.Outcome, r.Text)
-	r = vk.Call(func() { var l mat.Dense; cc.RightTo(&l, true); fmt.Println(mat.Formatted(&l)) })
-	fmt.Println(r.Outcome, r.Text)
+	data := []float64{1, 3, 2, 7, 5, 20, 4}
+	I, v, z := spatial.GlobalMoransI(data, nil, d)
+	fmt.Println("gonum", I, v, z)
+	perms := combin.Permutations(n, n)
+	var s, s2 float64
+	for _, p := range perms {
+		x := make([]float64, n)
+		for i, j := range p {
+			x[i] = data[j]
+		}
+		Ii, _, _ := spatial.GlobalMoransI(x, nil, d)
+		s += Ii
+		s2 += Ii * Ii
+	}
+	m := s / float64(len(perms))
+	fmt.Println("perm mean", m, "E", -1/float64(n-1), "perm var", s2/float64(len(perms))-m*m)
 }
